@@ -15,6 +15,7 @@ SITES = "OrqModel.Properties.Sites"
 NEXT = "OrqModel.Properties.Next"
 RERUN = "OrqModel.Properties.Rerun"
 PARAMS = "OrqModel.Properties.Params"
+COMPLETE = "OrqModel.Properties.ComposeComplete"
 
 TRUSTED = [
     "Lean 4.33 kernel (thorough tier: re-checked by leanchecker)",
@@ -31,21 +32,21 @@ PROPS = {
         title="every task execution justified, exactly once",
         theorems={NEXT: ["C01_offer_from_staged", "C01_no_offer_unless_running_or_remediation"], JOIN: ["C07_ready_iff_satisfied"], HISTORY: ["C18_record_core_fixed"]},
         keys=["status", "sequence", "staged", "tasks"], offers="ids",
-        prof=dict(p_items=0.0, p_retry=0.0, p_badexpr=0.0, p_join=0.9, p_join_count=0.1, p_loop=0.05, p_parallel_edge=0.05), hist=dict(p_fail=0.3, fixed_outcomes=True, p_lazy_start=0.25),
+        prof=dict(p_items=0.0, p_retry=0.0, p_badexpr=0.0, p_join=0.9, p_join_count=0.1, p_loop=0.05, p_parallel_edge=0.05, p_cond_ctx=0.3, p_template=0.3, templates=[7, 7, 0, 5, 6]), hist=dict(p_fail=0.3, fixed_outcomes=True, p_lazy_start=0.25),
         monitor="C01", unproven=["global multiset equality with the prescribed executions (C01_global) is not proved; search only"],
     ),
     "C02": dict(
         title="reported workflow status is truthful",
         theorems={STATUS: ["tbl_dormant_doors_task", "tbl_dormant_doors_wf", "tbl_active_doors_wf",
                            "tbl_succeeded_doors_task", "tbl_failure_covered", "tbl_failure_canceling",
-                           "tbl_failed_request_total", "C10_never_succeeds"]},
+                           "tbl_failed_request_total", "C10_never_succeeds", "tbl_leave_active_total"]},
         keys=["status", "sequence", "staged"], offers="ids",
         prof=dict(p_badexpr=0.4, bad_where=["publish", "when", "publish", "retry_when", "input"], max_tasks=4), hist=dict(p_pause=0.15, p_cancel=0.08, p_task_pause=0.25, p_lifecycle=0.3),
         monitor="C02", unproven=["state invariant paused|canceled => no active record is proved only at the doors (table level), not as a history invariant"],
     ),
     "C03": dict(
         title="no stuck workflow",
-        theorems={STATUS: ["tbl_succeeded_doors_task", "tbl_failure_covered", "tbl_task_targets_have_events", "tbl_item_targets_have_events", "tbl_failed_request_total"], ERRORS: ["C11_update_never_raises_expr"]},
+        theorems={STATUS: ["tbl_succeeded_doors_task", "tbl_failure_covered", "tbl_task_targets_have_events", "tbl_item_targets_have_events", "tbl_failed_request_total", "tbl_leave_active_total", "tbl_quiescent_resolves"], ERRORS: ["C11_update_never_raises_expr"]},
         keys=["status", "staged", "sequence"], offers="ids",
         prof=dict(), hist=dict(p_pause=0.1, p_cancel=0.05, p_rerun=0.4, p_task_pause=0.05, p_lifecycle=0.3, p_lazy_start=0.25),
         monitor="C03", unproven=["C03_quiescent_resting (history invariant) is not proved; search only"],
@@ -60,14 +61,14 @@ PROPS = {
         title="persist/restore unobservable",
         theorems={HISTORY: ["C05_persist_identity", "C18_history_extends"]},
         keys=None, offers="full",
-        prof=dict(), hist=dict(p_persist=0.35, p_pause=0.05, p_rerun=0.2, p_lazy_start=0.25), monitor="C05",
+        prof=dict(p_template=0.3, templates=[8, 8, 2, 3, 0, 6]), hist=dict(p_persist=0.35, p_pause=0.05, p_rerun=0.2, p_lazy_start=0.25), monitor="C05",
         unproven=["the model has value semantics, so restore is the identity on it by construction; aliasing in the implementation is visible only to the correspondence check with persist ops and to the twin monitor"],
     ),
     "C06": dict(
         title="context = variables published by causal ancestors",
         theorems={JOIN: ["C06_delta_keys"], VALUES: ["C06_merge_later_wins", "C16_merge_preserves_values"], HISTORY: ["C18_context_fixed"]},
         keys=["contexts", "sequence", "staged", "output"], offers="full",
-        prof=dict(p_publish=0.8, p_clash=0.4, p_items=0.05, p_retry=0.05, p_template=0.35, templates=[6, 6, 6, 0, 2, 5]), hist=dict(p_fail=0.15),
+        prof=dict(p_publish=0.8, p_clash=0.4, p_items=0.05, p_retry=0.05, p_template=0.35, templates=[6, 6, 6, 0, 2, 5, 7], p_null_over=0.3), hist=dict(p_fail=0.15),
         monitor="C06", unproven=["C06_ctx_indices_exact (ancestor-exactness as a history invariant) not proved; search only"],
     ),
     "C07": dict(
@@ -79,7 +80,7 @@ PROPS = {
     ),
     "C08": dict(
         title="outcome independent of completion order",
-        theorems={NEXT: ["C01_offer_from_staged"], JOIN: ["C19_inbound_status_perm"]},
+        theorems={NEXT: ["C01_offer_from_staged", "C08_offers_sorted"], JOIN: ["C19_inbound_status_perm"]},
         keys=["status", "sequence"], offers="ids",
         prof=dict(p_loop=0.0, p_retry=0.0, p_items=0.0, p_badexpr=0.0, p_template=0.4, templates=[4, 4, 0, 5, 6], p_delay=0.3), hist=dict(fixed_outcomes=True, p_lifecycle=0.4, p_odd_terminal=0.0),
         monitor="C08", unproven=["order independence of whole runs (C08_routefree, C08_commute) is relational and not proved; search only"],
@@ -124,9 +125,9 @@ PROPS = {
     ),
     "C14": dict(
         title="composed graph is exactly the definition",
-        theorems={COMPOSE: ["C14_edges_sound", "C14_next_transitions_exact"]},
+        theorems={COMPOSE: ["C14_edges_sound", "C14_one_edge_per_triple", "C14_next_transitions_exact"], COMPLETE: ["C14_complete"]},
         keys=[], offers=None, prof=dict(p_parallel_edge=0.3, max_tasks=7), hist=dict(), monitor="C14",
-        compose_only=True, unproven=["C14_complete, C14_perm not proved; search only"],
+        compose_only=True, unproven=["C14_complete is partial correctness (the worklist emptying is a hypothesis); C14_perm (declaration order) not proved; search only"],
     ),
     "C15": dict(
         title="accepted definitions are executable; broken references reported",
@@ -137,7 +138,7 @@ PROPS = {
     "C16": dict(
         title="values flow unchanged; evaluation pure; internals hidden",
         theorems={VALUES: ["C16_evaluate_plain_identity", "C16_merge_preserves_values", "C16_ctx_hides_internals"], JOIN: ["C06_delta_keys"]},
-        keys=["contexts", "output"], offers="full", prof=dict(p_publish=0.8, p_odd_strings=1.0, lang_jinja=0.5, p_use_y=0.6), hist=dict(p_fail=0.1),
+        keys=["contexts", "output"], offers="full", prof=dict(p_publish=0.8, p_odd_strings=1.0, lang_jinja=0.5, p_use_y=0.6, p_clash=0.5, p_null_over=0.5, p_template=0.1), hist=dict(p_fail=0.1),
         monitor="C16", unproven=["library behaviour (ujson, YAQL, Jinja) is not modelled; search only"],
     ),
     "C17": dict(
@@ -149,13 +150,15 @@ PROPS = {
     "C18": dict(
         title="history is append-only; finished records never change",
         theorems={HISTORY: ["C18_extends_request", "C18_extends_next", "C18_extends_report", "C18_extends_render", "C18_extends_rerun", "C18_history_extends", "C18_record_core_fixed", "C18_context_fixed"], ITEMS: ["C13_completed_rows"]},
-        keys=["contexts", "routes", "sequence"], offers=None, prof=dict(p_items=0.25, p_join=0.7, p_loop=0.3),
-        hist=dict(p_fail=0.3, p_persist=0.15, p_rerun=0.3, p_lazy_start=0.25), monitor="C18", unproven=["freezing of status/next after the decisions not proved; search only"],
+        keys=["contexts", "routes", "sequence"], offers=None,
+        prof=dict(p_items=0.25, p_join=0.7, p_loop=0.3, p_template=0.3, templates=[8, 8, 2, 0, 3]),
+        hist=dict(p_fail=0.3, p_persist=0.15, p_rerun=0.3, p_dup_report=0.3, p_lazy_start=0.25),
+        monitor="C18", unproven=["freezing of status/next after the decisions not proved; search only"],
     ),
     "C19": dict(
         title="conducting deterministic; next is a pure query",
-        theorems={NEXT: ["C19_next_no_status_change_when_not_running", "C01_no_offer_unless_running_or_remediation"], SITES: ["setSites_covered"], JOIN: ["C19_inbound_status_perm"]},
-        keys=None, offers="full", prof=dict(), hist=dict(p_fail=0.3, p_persist=0.15, p_rerun=0.3, p_dup_report=0.15), monitor="C19",
+        theorems={NEXT: ["C19_next_no_status_change_when_not_running", "C01_no_offer_unless_running_or_remediation", "C08_offers_sorted"], SITES: ["setSites_covered"], JOIN: ["C19_inbound_status_perm"]},
+        keys=None, offers="full", prof=dict(), hist=dict(p_next2=0.5, p_pause=0.05, p_fail=0.3), monitor="C19",
         unproven=["C19_next_idempotent not proved; hash-seed independence is outside any model, multi-seed replay only"],
     ),
     "C20": dict(
